@@ -2,8 +2,8 @@
 # Apply a seeded change to /repo, run the quick checks of the given properties, undo it straight afterwards.
 # usage: tools/try_mutant.sh <patch.diff> <ID> [<ID> ...]
 P=$1; shift
-cd /repo && git diff --quiet || { echo "/repo is dirty"; exit 2; }
-git -C /repo apply $P || exit 2
-cd /verif
+R=${VERIF_REPO:-/repo}; git -C $R diff --quiet || { echo "$R is dirty"; exit 2; }
+git -C $R apply $P || exit 2
+cd "$(dirname "$0")/.."
 for id in "$@"; do ./check $id --tier ${TIER:-quick} 2>&1 | grep -v "^WARNING" | tail -4; done
-git -C /repo checkout -- .
+git -C $R checkout -- .
